@@ -234,7 +234,11 @@ fn run_inner(line: &str) -> String {
             }
             let s = tryo!(str_dec(t[1]));
             match RawBoard::from_str(&s) {
-                Ok(r) => format!("ok {}", raw_fmt(&r)),
+                Ok(r) => {
+                    // parse-format-parse stability (C08) on the implementation itself
+                    let rt = RawBoard::from_str(&r.to_string()) == Ok(r);
+                    format!("ok {} rt={}", raw_fmt(&r), bit01(rt))
+                }
                 Err(e) => format!("err:{}", e_raw_fen(&e)),
             }
         }
@@ -258,7 +262,10 @@ fn run_inner(line: &str) -> String {
             }
             let s = tryo!(str_dec(t[1]));
             match uci::Move::from_str(&s) {
-                Ok(m) => format!("ok {} {}", uci_move_fmt(&m), str_enc(&m.to_string())),
+                Ok(m) => {
+                    let rt = uci::Move::from_str(&m.to_string()) == Ok(m);
+                    format!("ok {} {} rt={}", uci_move_fmt(&m), str_enc(&m.to_string()), bit01(rt))
+                }
                 Err(e) => format!("err:{}", e_uci_raw(&e)),
             }
         }
@@ -298,12 +305,16 @@ fn run_inner(line: &str) -> String {
             }
             let s = tryo!(str_dec(t[1]));
             match san::Move::from_str(&s) {
-                Ok(m) => format!(
-                    "ok {} {} {}",
-                    san_data_fmt(&m.data),
-                    san_check_fmt(&m.check),
-                    str_enc(&m.to_string())
-                ),
+                Ok(m) => {
+                    let rt = san::Move::from_str(&m.to_string()) == Ok(m);
+                    format!(
+                        "ok {} {} {} rt={}",
+                        san_data_fmt(&m.data),
+                        san_check_fmt(&m.check),
+                        str_enc(&m.to_string()),
+                        bit01(rt)
+                    )
+                }
                 Err(e) => format!("err:{}", e_san_raw(&e)),
             }
         }
@@ -340,19 +351,19 @@ fn run_inner(line: &str) -> String {
             let s = tryo!(str_dec(t[2]));
             match t[1] {
                 "coord" => match Coord::from_str(&s) {
-                    Ok(c) => format!("ok {} {}", c.index(), str_enc(&c.to_string())),
+                    Ok(c) => format!("ok {} {} rt={}", c.index(), str_enc(&c.to_string()), bit01(Coord::from_str(&c.to_string()) == Ok(c))),
                     Err(e) => format!("err:{}", e_coord(&e)),
                 },
                 "cell" => match Cell::from_str(&s) {
-                    Ok(c) => format!("ok {} {}", c.index(), str_enc(&c.to_string())),
+                    Ok(c) => format!("ok {} {} rt={}", c.index(), str_enc(&c.to_string()), bit01(Cell::from_str(&c.to_string()) == Ok(c))),
                     Err(e) => format!("err:{}", e_cell(&e)),
                 },
                 "color" => match Color::from_str(&s) {
-                    Ok(c) => format!("ok {} {}", c as u8, str_enc(&c.to_string())),
+                    Ok(c) => format!("ok {} {} rt={}", c as u8, str_enc(&c.to_string()), bit01(Color::from_str(&c.to_string()) == Ok(c))),
                     Err(e) => format!("err:{}", e_color(&e)),
                 },
                 "rights" => match CastlingRights::from_str(&s) {
-                    Ok(c) => format!("ok {} {}", c.index(), str_enc(&c.to_string())),
+                    Ok(c) => format!("ok {} {} rt={}", c.index(), str_enc(&c.to_string()), bit01(CastlingRights::from_str(&c.to_string()) == Ok(c))),
                     Err(e) => format!("err:{}", e_rights(&e)),
                 },
                 _ => BADARG.to_string(),
